@@ -39,6 +39,22 @@ class C07(CleanBase):
             ops = setup + cfg + run + extra + [G.op_setenv(ci, upd), {"op": "dumpfs"}, {"op": "clean", "sort": sort, "count": info["count"], "colour": colour}, {"op": "dumpfs"}]
             cases.append({"ci": False, "updvar": "unset", "colour": False, "ops": ops,
                           "meta": {"mode": "ci=%s upd=%s sort=%s" % (ci, upd, sort), "nontest": nontest}})
+        # an addressed file that ENDS IN AN UNTERMINATED ENTRY (truncated write, bad merge) and is examined BEFORE the default file:
+        # whatever Clean read from it must not reach the files it examines (and rewrites) next
+        for i in range(n // 6):
+            r = rng.fork()
+            setup, run, info = self.gen_tree(r, sort_names=False)
+            tail = r.choice([b"left over line", b"stale line\nsecond stale line", b"[quoted - 1]\ntext"])
+            first = frame(b"TestFirst - 1", b"f1") + b"\n[TestFirst - 2]\n" + tail + r.choice([b"\n", b""])
+            cfg = [G.op_putfile(b"def/aaa_first.snap", first), G.op_newconfig(dir=b"def", fn=b"aaa_first")]
+            extra = []
+            for _ in range(info["count"]):
+                extra += [G.op_match_snap(1, b"TestFirst", [b"f1"]), G.op_end(b"TestFirst")]
+            ci, upd = r.choice(G.ENVS)
+            sort = r.chance(3, 4)
+            ops = setup + cfg + run + extra + [G.op_setenv(ci, upd), {"op": "dumpfs"}, {"op": "clean", "sort": sort, "count": info["count"], "colour": False}, {"op": "dumpfs"}]
+            cases.append({"ci": False, "updvar": "unset", "colour": False, "ops": ops,
+                          "meta": {"mode": "unterminated-first ci=%s upd=%s sort=%s" % (ci, upd, sort), "nontest": False}})
         # `%` in names (a format verb to the standalone path before fix F8; the model is exact for them since): whatever file the
         # standalone calls wrote must survive Clean and must not be listed
         for i in range(n // 8):
